@@ -21,6 +21,8 @@ import (
 )
 
 var fProp = flag.String("prop", "C01", "C01|C02|C03|C13|C14|C18")
+var fMode = flag.String("mode", "", "C18 only: sched = explore interleavings of Project.Run under the controlled scheduler")
+var fBound = flag.Int("bound", -1, "override preemption bound (sched mode)")
 var fDepth = flag.Int("depth", 0, "override BFS depth")
 var fOps = flag.String("ops", "", "debug: comma-separated op names to restrict the alphabet")
 
@@ -170,6 +172,9 @@ func edits() []Op {
 		tog("fail:gen", func(v *Vars) { v.Fail[0] = !v.Fail[0] }),
 		tog("fail:mid", func(v *Vars) { v.Fail[1] = !v.Fail[1] }),
 		tog("fail:leaf", func(v *Vars) { v.Fail[2] = !v.Fail[2] }),
+		tog("dep:missing", func(v *Vars) { v.Missing = !v.Missing }),
+		tog("dep:cycle", func(v *Vars) { v.Cycle = !v.Cycle }),
+		tog("chatty", func(v *Vars) { v.Chatty = !v.Chatty }),
 		del("delete:gen/g.txt", "gen/g.txt"),
 		del("delete:out/mid", "out/mid"),
 		{Name: "stray-files", Edit: func(s *State) bool {
@@ -225,7 +230,12 @@ func alphabet(prop string, thorough bool) []Op {
 	}
 	all := []string{}
 	for _, o := range append(edits(), builds()...) {
-		all = append(all, o.Name)
+		// a dependency cycle makes Run return while other targets are still running; in the
+		// free-running search nothing joins them, so cycles are left to the controlled-scheduler
+		// pass (C18 second pass, C05)
+		if o.Name != "dep:cycle" {
+			all = append(all, o.Name)
+		}
 	}
 	switch prop {
 	case "C01":
@@ -256,7 +266,7 @@ func alphabet(prop string, thorough bool) []Op {
 		if thorough {
 			return pick(all...)
 		}
-		return pick("edit:src/a.txt", "edit:pkg/b.txt", "const:K", "fail:gen", "fail:mid", "fail:leaf", "edge:top->leaf", "target:pkg:other",
+		return pick("edit:src/a.txt", "const:K", "fail:gen", "fail:leaf", "edge:top->leaf", "dep:missing", "chatty", "fail:mid",
 			"build:top", "build:mid", "build:top:always", "dry:top")
 	}
 	vlib.Fatalf("no alphabet for %s", prop)
@@ -509,6 +519,10 @@ func main() {
 		crashMain(r, x)
 		return
 	}
+	if *fProp == "C18" && *fMode == "sched" {
+		schedMain(r, x)
+		return
+	}
 	ops := alphabet(*fProp, r.Thorough())
 	depth := 5
 	if len(ops) <= 12 {
@@ -525,6 +539,14 @@ func main() {
 		names = append(names, o.Name)
 	}
 	x.explore(depth, ops)
+	if *fProp == "C18" {
+		n := 8
+		if r.Thorough() {
+			n = 11
+		}
+		x.lineChunkings(r, n)
+		r.Extra["line_writer_texts_max_len"] = n
+	}
 	r.Sample(map[string]any{"alphabet": names})
 	r.Sample(map[string]any{"example_history": []string{"build:top", "edit:src/a.txt", "build:mid", "build:top"}})
 	r.Extra["alphabet"] = names
